@@ -44,6 +44,7 @@ def ref_loop(x, y, iv, t, k, upper, lower, maxiter, band):
         qdone = bool(np.all(new == mask))
         mask = new
         it += 1
+    stat['converged'] = qdone          # the last pass rejected nothing: the last fit was made with the returned mask
     return fit, mask, it, near, cond, stat
 
 
@@ -688,12 +689,14 @@ class C10(Check):
             out.count('outliers_flagged', int((~m[o]).sum()))
             clean = pos.copy()
             clean[o] = False
-            if np.array_equal(m, clean):
+            if np.array_equal(m, clean) and stat.get('converged'):
+                # (a run stopped by maxiter may reject the last outlier in its final pass: its curve is then the fit that still held it)
                 A = BR.basis_matrix(t, k, xd, extrapolate=True)
                 cc, rank, sv = BR.wls(A, yd, np.where(clean, ivd, 0.0))
                 devc = float(np.abs(c.astype('f8') - A @ cc)[inside].max())
                 out.expect(devc <= ctol * ys, 'outliers', 'curve is affected by rejected outliers (dev from the clean fit %.3g, limit %.3g)'
                            % (devc, ctol * ys))
+                out.count('default_weights_curve_equals_clean_fit')
         out.info.update(mode=mode, ratio=case['ratio'], band=band_eff, margin=stat['margin'])
 
     def _fixed_point(self, out, case, s, m, c, x, y, iv):
